@@ -3,7 +3,7 @@ from props import gxcommon as G
 
 
 def run(tier, seed):
-    res = G.gx(G.STMT_METHODS, ["term", "accept"], "C05/gx", tier)
+    res = G.gx(G.STMT_METHODS, ["term", "accept", "concrete"], "C05/gx", tier)
     try:
         from props import switchcases
         res.add(switchcases.obligations(tier))
